@@ -21,6 +21,7 @@ Q_FIELDS = {'cached_conversion', 'allowed'}
 CONV = 'synth_utils::quantizer::Conversion'
 NOTE = 'synth_utils::quantizer::Note'
 FNN = Q + '::find_nearest_note'
+from ..interp import INT_RANGES as INT_RANGES_
 
 
 def note_invariant(it, lo=0, hi=11):
@@ -238,7 +239,8 @@ def run_convert(qz, cached, v_part, allowed_point=None):
         calls.append(args[1])
         s.notes.append(('fnn_arg', args[1].term if isinstance(args[1], Num) else None))
         return n
-    it.stubs[FNN] = stub
+    if FNN in qz.facts.fns:
+        it.stubs[FNN] = stub
     pre = copy.deepcopy(q)
     outs, cell = run_method(it, st, Q + '::convert', q, [v])
     return it, outs, cell, pre, v
@@ -272,7 +274,13 @@ def check_convert(res, facts, prop):
                 post = o.cells[cell]
                 cc1 = post.get('cached_conversion')
                 fnn = [x for x in o.notes if x[0] == 'fnn_arg']
-                early = not fnn
+                has_stub = FNN in facts.fns
+                if has_stub:
+                    early = not fnn
+                else:
+                    # the private search helper was renamed/inlined: the hysteresis path is the one that keeps note and stairstep
+                    with structural():
+                        early = same(cc0.get('note_num'), cc1.get('note_num')) and same(cc0.get('stairstep'), cc1.get('stairstep'))
                 ret = o.ret
                 # the returned record is the cached record
                 if prop == 'C19':
@@ -318,8 +326,8 @@ def check_convert(res, facts, prop):
                                key='R-HYST:fallthrough-window')
                     # memoryless path
                     vc = Poly.const(0) if vname == 'nan' else t_min(t_max(v.term, ZERO, o.ctx, 'fmax'), Poly.const(qz.VMAX), o.ctx, 'fmin')
-                    arg = fnn[0][1]
-                    if prop in ('C08', 'C09', 'C19'):
+                    arg = fnn[0][1] if fnn else None
+                    if prop in ('C08', 'C09', 'C19') and has_stub:
                         res.ob('R-HYST', inst + '|search input is the clamped input', len(fnn) == 1 and arg == vc,
                                'find_nearest_note called %d time(s) with %r; expected clamp(v, 0, V_MAX) = %r' % (len(fnn), arg, vc), where, key='R-HYST:search-arg:%s' % vname)
                     note1 = cc1.get('note_num')
@@ -369,11 +377,13 @@ class SearchRun:
         self.vec_terms = []
         self.pre_havoc = []
         self.v_range = v_range
+        self.fn_path = None
 
     def hook(self, it, st, fr, cfg, head):
-        if fr.fn['path'] != FNN:
+        if not fr.fn['path'].startswith('synth_utils::quantizer::') or (self.fn_path is not None and fr.fn['path'] != self.fn_path):
             it.havoc_loop(st, fr, cfg, head)
             return
+        self.fn_path = fr.fn['path']
         depth = len(self.heads) if head not in self.heads else self.heads.index(head)
         if head not in self.heads:
             self.heads.append(head)
@@ -385,12 +395,21 @@ class SearchRun:
                 for s in fr.fn['blocks'][b]['stmts']:
                     if s['k'] == 'assign' and not s['place']['p']:
                         assigned.add(s['place']['l'])
-            self.acc_locals = {}
+            cands = {}
             for l in sorted(assigned):
                 cell = fr.locals.get(l)
                 v = st.cells.get(cell) if cell is not None else None
                 if isinstance(v, Num) and v.term.const_value() is not None:
-                    self.acc_locals[l] = v
+                    cands[l] = v
+            # best distance: starts at the maximum of its type; best candidate: starts at 0 and has the same type.
+            # other constant-initialised locals (explicit loop indices) are ordinary loop variables
+            self.acc_locals = {}
+            dist = [l for l, v in cands.items() if v.ty in INT_RANGES_ and v.term.const_value() == INT_RANGES_[v.ty][1]]
+            if len(dist) == 1:
+                dty = cands[dist[0]].ty
+                best = [l for l, v in cands.items() if v.term.const_value() == 0 and v.ty == dty]
+                if len(best) == 1:
+                    self.acc_locals = {best[0]: cands[best[0]], dist[0]: cands[dist[0]]}
         if depth == 0:
             # the octave list being iterated (one per path reaching the outer loop)
             seen_terms = set()
@@ -447,7 +466,7 @@ def inv_B(qz, t, ctx):
 
 def check_search(res, facts, prop):
     qz = Qz(facts)
-    where = where_of(facts, FNN)
+    where = where_of(facts, FNN) if FNN in facts.fns else where_of(facts, Q + '::convert')
     H, O = qz.H, qz.O
     res.ob('R-SEARCH', 'microvolt constants consistent', O == 1000000 and H == O // 12 and 11 * H < O and (qz.MAX_OCT + 2) * (O - 12 * H) < H,
            'HALF_STEP=%d ONE_OCTAVE=%d MAX_OCTAVE=%d (12 half steps must fill an octave up to a drift < one half step over the whole range)' % (H, O, qz.MAX_OCT))
@@ -457,15 +476,20 @@ def check_search(res, facts, prop):
     for modes in (('A', 'A'), ('A', 'B'), ('B', 'B')):
         it = qz.interp()
         st = State()
-        q = qz.quantizer(it, st, cached=None)
+        # the scan is reached through the public entry point: a freshly constructed quantizer cannot take the
+        # hysteresis early return (R-HYST), so convert(v) is exactly the memoryless search for v in [0, V_MAX]
+        q = qz.quantizer(it, st, cached='fresh')
         v = float_sym(st, 'v', 0, qz.VMAX)
         run = SearchRun(qz, *modes)
         it.loop_hook = run.hook
         try:
-            outs, cell = run_method(it, st, FNN, q, [v])
+            outs, cell = run_method(it, st, Q + '::convert', q, [v])
         except InterpError as e:
-            res.ob('R-SEARCH', 'find_nearest_note|%s' % (modes,), False, 'analysis failed: %s' % e, where)
+            res.ob('R-SEARCH', 'convert->search|%s' % (modes,), False, 'analysis failed: %s' % e, where)
             continue
+        for o in outs:
+            if o.status == 'returned' and isinstance(o.ret, StructV) and 'note_num' in o.ret.names:
+                o.ret = o.ret.get('note_num')
         res.absorb(it)
         vin = t_f2i(v.term.scale(O), 0, 2 ** 32 - 1, st.ctx)
         k0 = t_idiv(vin, Poly.const(O), st.ctx)
@@ -517,7 +541,7 @@ def check_search(res, facts, prop):
                 octs = t_idiv(r.term, Poly.const(12), o.ctx)
                 volt = pcs.scale(H) + octs.scale(O)
                 en = o.ctx.decide(qz.enabled(Poly.sym('self.allowed'), pcs, o.ctx))
-                if is_init and en is not True:
+                if is_init:
                     # single reasoned exception: the zero-initialised best reaches a return only if no enabled bit was met in
                     # complete 0..12 scans, excluded by the mask invariant allowed != 0 (R-MASK)
                     res.ob('R-SEARCH', inst0 + '|initial best returned only for an empty scale', True, 'exception: excluded by R-MASK (allowed in [1,4095])', where, key='R-SEARCH:init-exception', nontrivial=False)
@@ -537,7 +561,7 @@ def check_search(res, facts, prop):
             elif o.status == 'loopback':
                 n_back += 1
                 fr = o.state.frames[-1] if o.state.frames else None
-                if fr is None or fr.fn['path'] != FNN:
+                if fr is None or fr.fn['path'] != run.fn_path:
                     continue
                 for l in best_l:
                     cur = o.cells.get(fr.locals.get(l))
